@@ -1,17 +1,21 @@
 import NanoVerif.Model.Proto
 import NanoVerif.Model.WLearner
+import NanoVerif.Model.WLearnerTree
+import NanoVerif.Model.WLearnerKTable
 /-!
   driver family `wl` (C10): one self-contained op per line
 
     wl <kind> <p1> <p2> <crit> <threads> <N> <T> <F> {feature}*F <grads N*T> <base N*T> <samples> <scalemode> <svals>
        <sub samples> <K> {<samples>}*K | <epsilon1> [ | <fitted parameters> ]*
 
-  (see harness/c10.cpp for the fields). The model fits stump / hinge / affine / dense / dstep itself (one cache seeing
-  all features in increasing index order: by `fit_assignment_independent` / `table_fit_assignment_independent` that is what
-  every assignment of the features to threads gives, exact ties included); for kbest / ksplit / dtree the fitted parameters are read from the augmented op and only
-  predict / split / scale / merge are evaluated. Output = the harness' line with the gap between the best and the
-  second-best candidate score inserted after `ok` (and after every extra score / the `stump1` keyword): the
-  comparator only compares the selection-dependent fields when that gap is not a tie.
+  (see harness/c10.cpp for the fields). The model fits every learner itself: stump / hinge / affine / dense / dstep / kbest /
+  ksplit with one cache seeing all features in increasing index order (by `fit_assignment_independent` /
+  `table_fit_assignment_independent` that is what every assignment of the features to threads gives, exact ties included), the
+  decision tree with the breadth-first loop of Model/WLearnerTree.lean (stump fit at every node). Then predict / split / scale /
+  merge are evaluated on the fitted learners. Output = the harness' line with the gap between the best and the second-best
+  candidate score inserted after `ok` (and after every extra score / the `stump1` keyword; for a tree: a tiny gap when the stump
+  selection of some node was decided by rounding): the comparator only compares the selection-dependent fields when that gap
+  is not a tie.
 -/
 namespace NanoVerif.Driver.WLearner
 open NanoVerif.Proto NanoVerif.WLearner
@@ -25,9 +29,9 @@ def big : Float := Float.ofBits 0x7FEFFFFFFFFFFFFF
 def inf : Float := 1.0 / 0.0
 
 inductive Feat where
-  | S (labels : List Int)
-  | M (classes : Nat) (masks : List Int)
-  | F (values : List Float)
+  | S (labels : Array Int)
+  | M (classes : Nat) (masks : Array Int)
+  | F (values : Array Float)
 
 structure Spec where
   kind : String
@@ -36,8 +40,8 @@ structure Spec where
   crit : Crit
   N : Nat
   T : Nat
-  feats : List Feat
-  grads : List Float
+  feats : Array Feat
+  grads : Array Float
   base : List Float
   samples : List Nat
   scalemode : Nat
@@ -54,14 +58,14 @@ def pFeat (N : Nat) : P Feat
   | "S" :: ts => do
     let (_, ts) ← pNat ts
     let (ls, ts) ← pMany pInt N ts
-    pure (.S ls, ts)
+    pure (.S ls.toArray, ts)
   | "M" :: ts => do
     let (c, ts) ← pNat ts
     let (ls, ts) ← pMany pInt N ts
-    pure (.M c ls, ts)
+    pure (.M c ls.toArray, ts)
   | "F" :: ts => do
     let (vs, ts) ← pMany pFloat N ts
-    pure (.F vs, ts)
+    pure (.F vs.toArray, ts)
   | _ => none
 
 def pSpec : P Spec := fun ts => do
@@ -86,7 +90,8 @@ def pSpec : P Spec := fun ts => do
   guard (samples.all (· < N) ∧ sub.all (· < N) ∧ extras.all (·.all (· < N)) ∧ ¬ svals.isEmpty ∧ 0 < T)
   let ts ← expect "|" ts
   let (eps1, ts) ← pFloat ts
-  pure ({ kind, p1, p2, crit, N, T, feats, grads, base, samples, scalemode, svals, sub, extras, eps1 }, ts)
+  pure ({ kind, p1, p2, crit, N, T, feats := feats.toArray, grads := grads.toArray, base, samples, scalemode, svals, sub,
+          extras, eps1 }, ts)
 
 /-- bit `c` of the mask = indicator of label `c` -/
 def maskBits (classes : Nat) (m : Nat) : List Nat := (List.range classes).map fun c => (m >>> c) % 2
@@ -124,10 +129,12 @@ def classRows (sp : Spec) (sel : List Nat) (f : Nat) : Option (List (CRow Float)
 
 def sortItems (l : List (Item Float)) : List (Item Float) := l.mergeSort itemLe
 
+def sortPairs (l : List (Float × Nat)) : List (Float × Nat) := l.mergeSort pairLe
+
 /-- all candidates of a fit, in the order one thread would try them; for dstep the second component lists every
     (feature, bin) candidate (used only for the gap) -/
 def candidates (sp : Spec) (sel : List Nat) : Option (List (Cand Float) × List (Cand Float)) :=
-  let fs := List.range sp.feats.length
+  let fs := List.range sp.feats.size
   let T := sp.T
   match sp.kind with
   | "stump" =>
@@ -159,6 +166,16 @@ def candidates (sp : Spec) (sel : List Nat) : Option (List (Cand Float) × List 
       | some rows => (hashesOf rows).map (dstepCandOf T clampK sp.crit f rows)
       | none => []
     some (cs, all)
+  | "kbest" =>
+    let cs := fs.flatMap fun f => match classRows sp sel f with
+      | some rows => kbestCands sortPairs T clampK sp.crit f rows 0
+      | none => []
+    some (cs, cs)
+  | "ksplit" =>
+    let cs := fs.flatMap fun f => match classRows sp sel f with
+      | some rows => ksplitCands T clampK big sp.crit f rows
+      | none => []
+    some (cs, cs)
   | _ => none
 
 def toLearner (kind : String) (c : Cand Float) : Learner Float :=
@@ -182,60 +199,47 @@ structure Fitted where
   score : Float
   gap : Float
   learner : Learner Float
+  /-- a tree that the model does not fit, but some node's stump selection was decided by rounding: nothing is compared -/
+  tieNofit : Bool := false
 
 /-- the model's fit; `some none` = no fit -/
 def fitModel (sp : Spec) (sel : List Nat) : Option (Option Fitted) := do
   let (cs, all) ← candidates sp sel
   -- table learners: lexicographic cache update (table.cpp since 5de0896); affine / stump / hinge: first best
-  let best := if sp.kind = "dense" ∨ sp.kind = "dstep" then fitSeqLex big cs else fitSeq big cs
+  let best := if sp.kind = "dense" ∨ sp.kind = "dstep" ∨ sp.kind = "kbest" ∨ sp.kind = "ksplit" then fitSeqLex big cs
+    else fitSeq big cs
   if best.fitted big then
-    pure (some ⟨best.score, gapOf best.score all, toLearner sp.kind best⟩)
+    pure (some ⟨best.score, gapOf best.score all, toLearner sp.kind best, false⟩)
   else pure none
 
-/-! ### fitted parameters read back from the augmented op (kbest / ksplit / dtree) -/
+/-! ### the decision tree: the model's own fit (Model/WLearnerTree.lean) -/
 
-def pNode : P (Node Float) := fun ts => do
-  let (f, ts) ← pInt ts
-  let (thr, ts) ← pFloat ts
-  let (next, ts) ← pNat ts
-  let (table, ts) ← pInt ts
-  pure (⟨f.toNat, thr, next, table⟩, ts)
+def scalarFeats (sp : Spec) : List Nat :=
+  (List.range sp.feats.size).filter fun f => match sp.feats[f]? with
+    | some (.F _) => true
+    | _ => false
 
-def vecOf (l : List Float) : Vec Float := fun o => l.getD o 0.0
+def treeCfg (sp : Spec) : TreeCfg Float :=
+  stumpTreeCfg sortItems sp.T clampK big sp.crit (scalarFeats sp) (sample sp) (resid sp) sp.N sp.p1 sp.p2
 
-def chunks (T : Nat) : Nat → List Float → List (List Float)
-  | 0, _ => []
-  | n + 1, l => l.take T :: chunks T n (l.drop T)
+/-- a positive gap that `is_tie` of tools/props/c10.py reads as "decided by rounding" -/
+def tinyGap : Float := 1e-300
 
-/-- `<score> feat … thr … dir … hashes … h2t … nodes … tables …` or `nofit` -/
-def pParams (kind : String) (T : Nat) : P (Option Fitted)
-  | "nofit" :: ts => some (none, ts)
-  | ts => do
-    let (score, ts) ← pFloat ts
-    let ts ← expect "feat" ts
-    let (feat, ts) ← pList pInt ts
-    let ts ← expect "thr" ts
-    let (_thr, ts) ← pFloat ts
-    let ts ← expect "dir" ts
-    let (_dir, ts) ← pInt ts
-    let ts ← expect "hashes" ts
-    let (hashes, ts) ← pList pNat ts
-    let ts ← expect "h2t" ts
-    let (h2t, ts) ← pList pNat ts
-    let ts ← expect "nodes" ts
-    let (nodes, ts) ← pList pNode ts
-    let ts ← expect "tables" ts
-    let (rows, ts) ← pNat ts
-    let (vals, ts) ← pMany pFloat (rows * T) ts
-    let tables := (chunks T rows vals).map vecOf
-    let l : Learner Float :=
-      if kind = "dtree" then .dtree nodes tables
-      else .table ((feat.headD 0).toNat) hashes h2t tables
-    pure (some ⟨score, inf, l⟩, ts)
+/-- the stump selection of a processed node was decided by rounding (runner-up within 1e-9 relative, not exactly equal) -/
+def entryTie (sp : Spec) (e : TEntry Float) : Bool :=
+  match candidates { sp with kind := "stump" } e.cache.samples with
+  | some (_, all) =>
+    let gap := gapOf e.cand.score all
+    gap != 0.0 && !(gap > 1e-9 * (if e.cand.score.abs > 1.0 then e.cand.score.abs else 1.0))
+  | none => false
 
-def pBar (kind : String) (T : Nat) : P (Option Fitted)
-  | "|" :: ts => pParams kind T ts
-  | _ => none
+def fitTree (sp : Spec) (sel : List Nat) : Option (Option Fitted) :=
+  match dtreeFit (treeCfg sp) sel with
+  | .fuel => none
+  | .nofit st =>
+    if st.log.any (entryTie sp) then some (some ⟨0.0, tinyGap, .dtree [] [], true⟩) else some none
+  | .ok st =>
+    some (some ⟨st.score, if st.log.any (entryTie sp) then tinyGap else inf, st.learner, false⟩)
 
 /-! ### printing (the layout of harness/c10.cpp) -/
 
@@ -295,6 +299,7 @@ def run (sp : Spec) (main : Option Fitted) (extras : List (Option Fitted)) (stum
   match main with
   | none => "ok nan fit nofit"
   | some m =>
+    if m.tieNofit then s!"ok {showScore m.gap} fit nofit" else
     let T := sp.T
     let all := List.range sp.N
     let l := m.learner
@@ -308,9 +313,11 @@ def run (sp : Spec) (main : Option Fitted) (extras : List (Option Fitted)) (stum
     let s := (List.range size).map fun i => sp.svals.getD (i % sp.svals.length) 0.0
     let scaled := l.scale s
     let extraStr := extras.map fun e => match e with
-      | some e => s!"{showScore e.score} {showScore e.gap}"
+      | some e => if e.tieNofit then "tie" else s!"{showScore e.score} {showScore e.gap}"
       | none => "nofit"
-    let list := l :: extras.filterMap (·.map (·.learner))
+    let list := l :: extras.filterMap fun e => match e with
+      | some e => if e.tieNofit then none else some e.learner
+      | none => none
     let merged := merge list
     let stumpStr := match stump1 with
       | none => ""
@@ -332,17 +339,15 @@ def run (sp : Spec) (main : Option Fitted) (extras : List (Option Fitted)) (stum
 
 def handle : Toks → Option String := fun ts => do
   let (sp, ts) ← pSpec ts
-  if sp.kind = "kbest" ∨ sp.kind = "ksplit" ∨ sp.kind = "dtree" then
-    let (main, ts) ← pBar sp.kind sp.T ts
+  if sp.kind = "dtree" then
+    guard ts.isEmpty
+    let main ← fitTree sp sp.samples
     match main with
-    | none =>
-      guard ts.isEmpty
-      pure (run sp none [] none)
+    | none => pure (run sp none [] none)
     | some m =>
-      let (extras, ts) ← pMany (pBar sp.kind sp.T) sp.extras.length ts
-      guard ts.isEmpty
-      let stump1 ← if sp.kind = "dtree" then (fitModel { sp with kind := "stump" } sp.samples).map some else pure none
-      pure (run sp (some m) extras stump1)
+      let extras ← sp.extras.mapM (fitTree sp)
+      let stump1 ← fitModel { sp with kind := "stump" } sp.samples
+      pure (run sp (some m) extras (some stump1))
   else
     guard ts.isEmpty
     let main ← fitModel sp sp.samples
